@@ -283,7 +283,7 @@ func (bs *boolSummer) evalBool(fn *ssa.Function, v ssa.Value, cond lits, pe map[
 					for i, p := range g.Params {
 						if i < len(args) {
 							a, _ := normValueName(args[i], env)
-							nenv["$"+p.Name()] = a
+							nenv["$"+pname(p)] = a
 						}
 					}
 					if paths, ok := bs.summarise(g, nenv, depth+1); ok {
@@ -316,7 +316,7 @@ func (bs *boolSummer) evalBool(fn *ssa.Function, v ssa.Value, cond lits, pe map[
 				for i, p := range g.Params {
 					if i < len(args) {
 						a, _ := normValueName(args[i], env)
-						nenv["$"+p.Name()] = a
+						nenv["$"+pname(p)] = a
 					}
 				}
 				paths, ok := bs.summarise(g, nenv, depth+1)
